@@ -33,7 +33,8 @@ Apply(s, e) ==
 
 Clause(s, e) ==
   CASE e.a = "call+" -> IF s.inflight + 1 > NSlots THEN "P:InFlightBound" ELSE "ok"
-    [] e.a = "get" -> IF e.k \notin s.put THEN "P:GetAfterPut" ELSE "ok"
+    \* ("get" is not judged against "put": the put hook fires after the chunk is already visible in the queue, so a consumer's
+    \*  "get" can be logged first - log order between two threads means nothing there; a worker's own get -> chunk_done order does)
     [] e.a = "chunk_done" -> IF e.k \in s.done THEN "P:ChunkDoneOnce" ELSE IF e.k \notin s.got THEN "P:GetAfterPut" ELSE "ok"
     [] e.a = "commit" -> IF s.done # 1..e.chunks \/ s.inflight # 0 THEN "P:CommitAfterAllChunks" ELSE "ok"
     \* FileLocks.tla WritersExclusive: nobody else is inside the write section of that file (hooks write.begin ... write under the file's lock)
